@@ -29,6 +29,11 @@ func c09Plan(tp *Tape, env *Env) *Plan {
 		NVars: [3]int{2, 1, 1}, NJVars: 1, Probes: true, Visited: true, Random: true, ExprDepth: 2,
 		InlinePct: 35, CondPct: 40, VarLines: tp.Bool("varlines"), Builtins: true,
 	}
+	withFaults := tp.Chance(25, "withfaults")
+	if withFaults {
+		cfg.Faults = tp.Int(1, 2, "nfaults") // failing calls: the error texts are part of the trace
+		cfg.WFault = 2
+	}
 	g := &gen{tp: tp, cfg: cfg}
 	prog := g.program()
 	g.ensureYieldingCycles(prog)
@@ -43,7 +48,7 @@ func c09Plan(tp *Tape, env *Env) *Plan {
 	w.Host = HostSpec{Storer: []string{"rec", "mem"}[tp.Int(0, 1, "storer")], Probes: true, Seed: seed}
 	ops := drawDynOps(tp, tp.Int(3, 24, "nops"), g.vars, 8, false)
 	return &Plan{Harness: 1, Property: "C09", Program: prog, Layout: &layout, World: w, Ops: ops,
-		Extra: map[string]any{"neighbours": tp.Int(1, 3, "neighbours"), "global_draws": tp.Int(1, 50, "globaldraws"), "clock_offset_s": tp.Int(1, 1000000, "clockoffset"), "burst_every": tp.Int(1, 5, "burstevery")}}
+		Extra: map[string]any{"with_faults": withFaults, "neighbours": tp.Int(1, 3, "neighbours"), "global_draws": tp.Int(1, 50, "globaldraws"), "clock_offset_s": tp.Int(1, 1000000, "clockoffset"), "burst_every": tp.Int(1, 5, "burstevery")}}
 }
 
 // c09Trace runs the plan once and returns the canonical trace.
@@ -87,7 +92,7 @@ func c09Trace(plan *Plan, bubble bool, midCall func(), st *Stats) (string, *Viol
 					fmt.Fprintf(&sb, "|%s/%v/%v", o.Text, o.Tags, o.Disabled)
 				}
 				sb.WriteString("\n")
-				if v := c09Ranges(i, r); v != nil && viol == nil {
+				if v := c09Ranges(i, r); v != nil && viol == nil && !(v.Note != "" && r.Kind == rError && planHasFaults(plan)) {
 					viol = v
 				}
 				if r.Kind == rPanic {
@@ -146,6 +151,11 @@ func c09Ranges(i int, r *Resp) *Violation {
 		}
 	}
 	return nil
+}
+
+func planHasFaults(plan *Plan) bool {
+	b, _ := plan.Extra["with_faults"].(bool)
+	return b
 }
 
 func c09World(tp *Tape, env *Env) (*Plan, *Violation) {
@@ -242,6 +252,9 @@ func c09Exec(plan *Plan, st *Stats) *Violation {
 		st.fault("after_neighbours")
 		st.fault("global_rand_draws")
 		st.fault("clock_offset")
+		if planHasFaults(plan) && strings.Contains(base, "|error|") {
+			st.probe("trace_with_error_texts")
+		}
 		nrand := strings.Count(base, "RD ") + strings.Count(base, "RR ") + strings.Count(base, "RF ")
 		st.inc("random_lines_range_checked", int64(nrand))
 		if nrand >= 2 {
